@@ -188,6 +188,20 @@ def oracle_all(p):
     return out
 
 
+def impl_lsf(p):
+    return [c(_lp().lsf2poly(p["lsf"]))]
+
+
+def model_lsf(p):
+    lsf = np.asarray(p["lsf"])
+    z = np.exp(1j * lsf)
+    rQ = z[0::2]
+    rP = z[1::2]
+    rQ = np.concatenate((rQ, rQ.conjugate()))
+    rP = np.concatenate((rP, rP.conjugate()))
+    return ("F", proto.request("lsfrecombine", "F", [len(lsf)], [rQ, rP]))
+
+
 def _key(p):
     k = np.asarray(p["k"])
     return "%d|%s|%d" % (len(k), np.iscomplexobj(k), hash(k.tobytes()) & 0xFFFFFFF)
@@ -216,6 +230,9 @@ KINDS = {
     "laws": {"oracle": oracle_all, "key": _key, "tags": _tags, "nontrivial": lambda p: len(p["k"]) >= 2},
 }
 KINDS["ac2poly"]["rtol"] = 1e-7
+KINDS["lsf"] = {"impl": impl_lsf, "model": model_lsf, "rtol": 1e-9, "atol": 1e-12,
+                "key": lambda p: "lsf|%d|%d" % (len(p["lsf"]), hash(np.asarray(p["lsf"]).tobytes()) & 0xFFFFFF),
+                "tags": lambda p: ["lsf", "order:%d" % len(p["lsf"])], "nontrivial": lambda p: len(p["lsf"]) >= 2}
 
 
 def gen_k(nrng, order, cplx):
@@ -244,3 +261,6 @@ def gen(rng, nrng, tier):
         yield ("laws", p)
         yield (kinds[i % len(kinds)], p)
         yield (kinds[(i + 3) % len(kinds)], p)
+        if not cplx and order <= 12:
+            a, e = _lp().rc2poly(k, r0)
+            yield ("lsf", {"lsf": np.asarray(_lp().poly2lsf(np.asarray(a))), "k": k, "r0": r0})
